@@ -73,6 +73,10 @@ func c16Ops(set string) []c16Op {
 		c16Op{Name: "f2.set_active", Kind: "feeder_active", Who: "f2"},
 		c16Op{Name: "gov.remove(f2)", Kind: "gov_remove", Who: "f2"},
 		c16Op{Name: "gov.add(f1)", Kind: "gov_add", Who: "f1"},
+		// LISTS: an entry that is not (or no longer) registered before a registered one, a repeated entry
+		c16Op{Name: "gov.remove([outsider,f2])", Kind: "gov_remove", Who: "out+f2"},
+		c16Op{Name: "gov.remove([f1,f1,f2])", Kind: "gov_remove", Who: "f1+f1+f2"},
+		c16Op{Name: "gov.add([f2,f2,f1])", Kind: "gov_add", Who: "f2+f2+f1"},
 		c16Op{Name: "gov.remove_asset_info(uaaa)", Kind: "info_remove", Asset: "uaaa"},
 		c16Op{Name: "create_asset_info(uaaa->ATM)", Kind: "info_create", Asset: "uaaa", Source: "ATM"},
 		c16Op{Name: "endblock(+1s,+1)", Kind: "endblock", Dt: 1, Dh: 1},
@@ -239,12 +243,27 @@ func (r *c16Run) apply(ctx sdk.Context, ref *c16Ref, op c16Op, depth int, path [
 			delete(ref.feeders, op.Who)
 		}
 	case "gov_remove":
-		if err := r.deliver(ctx, &oracletypes.MsgRemovePriceFeeders{Authority: r.w.Gov, Feeders: []string{who.String()}}); err == nil {
-			delete(ref.feeders, op.Who)
+		// an accepted removal removes EVERY listed account, whatever else the list contains
+		names := strings.Split(op.Who, "+")
+		list := []string{}
+		for _, n := range names {
+			list = append(list, r.addr[n].String())
+		}
+		if err := r.deliver(ctx, &oracletypes.MsgRemovePriceFeeders{Authority: r.w.Gov, Feeders: list}); err == nil {
+			for _, n := range names {
+				delete(ref.feeders, n)
+			}
 		}
 	case "gov_add":
-		if err := r.deliver(ctx, &oracletypes.MsgAddPriceFeeders{Authority: r.w.Gov, Feeders: []string{who.String()}}); err == nil {
-			ref.feeders[op.Who] = true
+		names := strings.Split(op.Who, "+")
+		list := []string{}
+		for _, n := range names {
+			list = append(list, r.addr[n].String())
+		}
+		if err := r.deliver(ctx, &oracletypes.MsgAddPriceFeeders{Authority: r.w.Gov, Feeders: list}); err == nil {
+			for _, n := range names {
+				ref.feeders[n] = true
+			}
 		}
 	case "info_remove":
 		if err := r.deliver(ctx, &oracletypes.MsgRemoveAssetInfo{Authority: r.w.Gov, Denom: op.Asset}); err == nil {
